@@ -272,6 +272,15 @@ func (vm *simVM) spawn(inc *incarnation, uuid string, now time.Time) *simProc {
 	if s.spec.Tier != "thorough" && len(s.api.uuids) > 12 && p.runDur > 40*time.Second {
 		p.runDur = 40 * time.Second // many containers: keep the quick tier's runs short
 	}
+	if s.o.prop == "C15" && len(s.api.uuids)+s.toArrive > 6 {
+		// the liveness bound B is a multiple of the fault-free need: keep that need small
+		if p.runDur > 40*time.Second {
+			p.runDur = 40 * time.Second
+		}
+		if p.startLag > 30*time.Second {
+			p.startLag = 30 * time.Second
+		}
+	}
 	if s.chance("proc-crash-early") {
 		p.crashAt = 1
 	} else if s.chance("proc-crash-running") {
